@@ -122,6 +122,38 @@ def make_job(only=None, seed=0):
                 probe_args=dict(package=names.import_package(P), proto_package=P, cells=cells, seed=seed)), cells
 
 
+def subpackage_job(seed=0, only=None):
+    """The request message lives in a proto sub-package of the API (a proto-plus type of another package), the service in the
+    API package; all messages sit in the sub-package."""
+    sp = P + '.sub'
+    dmss, dmss_e = map_field(f'.{sp}.FlatRequest', 'attrs', 4, 'string', 'string')
+    sub = file('acme/flat/v1/sub/things.proto', sp, messages=[
+        message('Money', [field('units', 1, 'int64'), field('currency', 2, 'string')]),
+        message('FlatRequest', [field('name', 1, 'string'), field('count', 2, 'int64'), field('tags', 3, 'string', repeated=True), dmss,
+                                field('money', 5, f'.{sp}.Money'), field('flag', 6, 'bool')], nested=[dmss_e]),
+        message('Resp', [field('ok', 1, 'bool')])])
+    cells, meths = [], []
+    kinds = [k for k in DEP_KINDS]
+    j = 0
+    for sig in [[k] for k in kinds] + [list(x) for x in itertools.permutations(['string', 'int', 'rstr', 'bool'], 2)]:
+        j += 1
+        rpc = f'Sub{j}'
+        meths.append(method(rpc, f'.{sp}.FlatRequest', f'.{sp}.Resp', sigs=[','.join(DEP_KINDS[k] for k in sig)]))
+        cells.append(dict(id='sub/' + ('single/' if len(sig) == 1 else 'pair/') + ','.join(sig), service='FlatSub', rpc=rpc, py=names.py_method(rpc),
+                          req=f'.{sp}.FlatRequest', dep='sub', kinds=sig, params=[param_name(DEP_KINDS[k]) for k in sig],
+                          paths=[DEP_KINDS[k] for k in sig], resp=f'.{sp}.Resp'))
+    main = file('acme/flat/v1/flatsub.proto', P, services=[service('FlatSub', meths)])
+    std = desc.std_dep_names()
+    sub.dependency.extend(std)
+    main.dependency.extend(std + [sub.name])
+    req = request([sub, main], 'transport=grpc,autogen-snippets=false')
+    desc.gate(req)
+    if only:
+        cells = [c for c in cells if c['id'] in only]
+    return dict(id='c05-subpackage', req=req.SerializeToString(), probe='mc.probes.flatten',
+                probe_args=dict(package=names.import_package(P), proto_package=P, cells=cells, seed=seed, sub_package=names.import_package(P) + '.sub')), cells
+
+
 def control_word_jobs():
     """Thorough only: a flattened parameter named like a client control parameter (DESIGN 9/D7); one library per word."""
     jobs = []
@@ -157,8 +189,15 @@ def run(ctx, only=None):
                 ctx.violation(f'control-word/{w}|{e["etype"]}', f'flattened parameter named {w!r}: emitted library is not importable: '
                               f'{e.get("file", e.get("module"))}: {e["emsg"][:200]}', dict(cells=None))
     job, cells = make_job(only, ctx.seed)
-    ctx.log(f'{len(cells)} signature cells')
-    res, = engine.run_jobs([job])
+    sjob, scells = subpackage_job(ctx.seed, only)
+    ctx.log(f'{len(cells)} signature cells + {len(scells)} with the request in a proto sub-package')
+    pairs = [(j, c) for j, c in ((job, cells), (sjob, scells)) if c or not only]
+    for (job, cells), res in zip(pairs, engine.run_jobs([j for j, _ in pairs])):
+        consume(ctx, job, cells, res, only, floor=job['id'] == 'c05')
+    ctx.extra['bound'] = 'all 3^n assignments for n<=5 parameters; singles + all ordered pairs of 18 kinds; dependency-package and sub-package requests'
+
+
+def consume(ctx, job, cells, res, only, floor):
     if not res['gen']['ok']:
         ctx.state(1)
         ctx.violation(f'generation:{res["gen"]["etype"]}:{res["gen"]["where"]}', f'generator failed: {res["gen"]["emsg"][:300]}',
@@ -184,9 +223,8 @@ def run(ctx, only=None):
     for f in obs['failures']:
         ctx.violation(f'{f["cell"]}|{f["client"]}|{f["kind"]}', f'{f["cell"]} {f["client"]} assignment={f["assignment"]}: '
                       f'{f["kind"]}: {f["detail"]}', dict(cells=[f['cell']]))
-    if not only and obs['calls'] < 10 * len(cells) and not ctx.violations:
+    if floor and not only and obs['calls'] < 10 * len(cells) and not ctx.violations:
         raise HarnessError(f'C05 exploration collapsed: {obs["calls"]} calls')
-    ctx.extra['bound'] = 'all 3^n assignments for n<=5 parameters; singles + all ordered pairs of 18 kinds; dependency-package requests'
 
 
 def replay(ctx, state):
